@@ -214,9 +214,15 @@ impl<C: Config> DirtyWorker<C> {
         let mut counter = 0;
         let mut pushed = false;
 
-        for caller in
+        // The iterator over the backward edges holds the (synchronous) locks
+        // of the edge set. It must not live across an `.await`: a task that
+        // is suspended with those locks held blocks, for good, every worker
+        // thread that tries to insert into or remove from the same set.
+        let callers: Vec<QueryID> =
             unsafe { database.get_backward_edges_unchecked(&query_id).await }
-        {
+                .collect();
+
+        for caller in callers {
             counter += 1;
             // every 16 edges, yield to allow other tasks to run
             if counter >= 16 {
